@@ -335,6 +335,144 @@ def task_pairs_same_object(i):
     return acc
 
 
+# ------------------------------------------------------------------------------------------------ phase 3: other API areas
+def context_calls():
+    """Public calls from OTHER areas of the API (plots, permutations, files, setters on other objects, a Wang-Landau run).
+    Their own results are not judged here; every read-only query made AFTERWARDS must still answer as on a fresh object."""
+    def plots_off():
+        import matplotlib.pyplot as plt
+        plt.close("all")
+
+    def wl_run(objs):
+        from . import c18
+        from ..engines import choice as C
+        c18.mods()
+        cfg = dict(name="ctx", seq="KKEEGG", nbins=2, binmin=0, binmax=1, flatchk=3, flatcrit=0.3, conv=2.0)
+        t = C.Tape((), 7, 300, None, 0)
+        C.ScriptedRandom.tape = t
+        try:
+            c18.Run(cfg)(t)
+        finally:
+            C.ScriptedRandom.tape = None
+
+    def from_file(objs):
+        import io
+        import localcider.backend.seqfileparser as P
+        from localcider.sequenceParameters import SequenceParameters as SP
+        from localcider.sequencePermutants import SequencePermutants
+        P.open = lambda *a, **k: io.StringIO(">x\n1 SKEKTG KEYEKE 12\n*\n")
+        try:
+            SP(sequenceFile="mem").get_kappa()
+            SequencePermutants(sequenceFile="mem").get_permutant().get_kappa()
+        finally:
+            del P.open
+
+    def other_object(objs):
+        from localcider.sequenceParameters import SequenceParameters as SP
+        x = SP(SEQ_A)
+        x.set_phosphosites([5, 1, 9])
+        x.get_full_phosphostatus_kappa_distribution()
+        x.clear_phosphosites()
+        x.set_HTMLColorResiduePalette(dict(PALETTE))
+        x.get_HTMLColorString()
+        y = SP(SEQ_B)
+        y.get_kappa()
+        y.get_deltaMax(True)
+
+    def moves(objs):
+        so = objs["A"].SeqObj
+        so.swapRes(0, 3)
+        so.full_shuffle(set([1]))
+        so.swapRandChargeRes(set())
+        objs["A"].get_shuffled_sequence([0, 2])
+        from localcider.sequencePermutants import SequencePermutants
+        SequencePermutants(SEQ_A).get_permutant().get_kappa()
+        try:
+            so.permute_block_swap()
+            so.permute_cluster_charges()
+        except Exception:  # noqa
+            pass
+
+    def save_plots(objs):
+        import matplotlib.pyplot as plt
+        orig = plt.savefig
+        plt.savefig = lambda *a, **k: None
+        try:
+            o = objs["A"]
+            o.save_phaseDiagramPlot("/nonexistent/a.png")
+            o.save_uverskyPlot("/nonexistent/b.png", label="x")
+            o.save_linearNCPR("/nonexistent/c.png")
+            o.save_linearHydropathy("/nonexistent/d.png", 3)
+            o.save_linearComplexity("/nonexistent/e.png", "LZW", blobLen=5)
+            try:
+                o.save_linearComposition("/nonexistent/f.png")
+            except Exception:  # noqa
+                pass
+        finally:
+            plt.savefig = orig
+            plt.close("all")
+
+    def show_plots(objs):
+        from localcider import plots
+        o = objs["A"]
+        o.show_phaseDiagramPlot(getFig=True)
+        plots_off()
+        o.show_uverskyPlot(getFig=True)
+        plots_off()
+        for f in (o.show_linearNCPR, o.show_linearFCR, o.show_linearSigma, o.show_linearHydropathy):
+            f(5, getFig=True)
+            plots_off()
+        o.show_linearComplexity("WF", blobLen=6, getFig=True)
+        plots_off()
+        plots.show_multiple_phasePlot2([objs["A"], objs["B"]], getFig=True)
+        plots_off()
+        plots.show_multiple_uverskyPlot2([objs["B"], objs["A"]], ["b", "a"], getFig=True)
+        plots_off()
+
+    def rejected_calls(objs):
+        o = objs["A"]
+        for f in (lambda: o.get_linear_NCPR(99), lambda: o.get_NCPR(15.0), lambda: o.get_linear_complexity("XX"),
+                  lambda: o.get_reduced_alphabet_sequence(7), lambda: o.get_kappa_X(["X"]), lambda: o.set_HTMLColorResiduePalette({}),
+                  lambda: o.get_reduced_alphabet_sequence(userAlphabet={"A": "A"}), lambda: o.get_PPII_propensity("nobody")):
+            try:
+                f()
+            except Exception:  # noqa
+                pass
+    return [("show-plots", show_plots), ("save-plots", save_plots), ("moves-and-permutants", moves), ("sequence-file", from_file),
+            ("setters-on-other-objects", other_object), ("wang-landau-run", wl_run), ("rejected-calls", rejected_calls)]
+
+
+def task_context(k):
+    e = _expander()
+    acc = core.Acc()
+    names = [o[0] for o in e.ops]
+    ref = _REF["ref"]
+    cname, cfun = context_calls()[k]
+    objs = e.rebuild([])
+    err = None
+    try:
+        with core.quiet():
+            cfun(objs)
+    except BaseException as ex:  # noqa
+        err = repr(ex)
+    acc.states += 1
+    acc.traces += 1
+    acc.extra["context_errors"] = [] if err is None else ["%s: %s" % (cname, err)]
+    for j, op in enumerate(e.ops):
+        r = H.run_op(op, objs)
+        acc.transitions += 1
+        acc.evaluations += 1
+        if r != ref[j]:
+            acc.viol("depends-on-other-api-calls:" + names[j].split(".", 1)[1],
+                     "after the context calls '%s', %s returned %r; as the first call on a fresh object it returns %r"
+                     % (cname, names[j], _short(r), _short(ref[j])),
+                     {"kind": "context", "tier": TIER[0], "context": cname, "op": names[j]})
+            break
+        for (kk, w) in invariant(objs, names[j], r):
+            acc.viol(kk, w, {"kind": "context", "tier": TIER[0], "context": cname, "op": names[j]})
+    return acc
+
+
 _REF = {}
 
 
@@ -348,6 +486,27 @@ def task_expand(args):
 
 
 def replay(case):
+    if case.get("kind") == "context":
+        TIER[0] = case.get("tier", "quick")
+        _EXP.clear()
+        e = _expander()
+        names = [o[0] for o in e.ops]
+        j = names.index(case["op"])
+        H.fresh_world()
+        with core.quiet():
+            ref = H.run_op(e.ops[j], build(only=case["op"].split(".", 1)[0]))
+        k = [c[0] for c in context_calls()].index(case["context"])
+        objs = e.rebuild([])
+        try:
+            with core.quiet():
+                context_calls()[k][1](objs)
+        except BaseException:  # noqa
+            pass
+        got = H.run_op(e.ops[j], objs)
+        if got != ref:
+            return [{"key": "depends-on-other-api-calls:" + case["op"].split(".", 1)[1],
+                     "what": "after '%s', %s returned %r, fresh %r" % (case["context"], case["op"], _short(got), _short(ref)), "case": case}]
+        return []
     if case.get("kind") == "statecap":
         return [{"key": "state-space-does-not-close", "what": "re-run ./check C15 to reproduce", "case": case}]
     if case.get("kind") == "pairs":
@@ -394,6 +553,9 @@ def run(tier, seed, t0):
         for a1 in pool.imap_unordered(task_pairs_same_object, range(len(ops)), 2):
             acc.merge(a1)
         acc.extra["same_object_pair_histories"] = len(ops)
+        for a3 in pool.imap_unordered(task_context, range(len(context_calls())), 1):
+            acc.merge(a3)
+        acc.extra["context_histories"] = len(context_calls())
         reps = {}          # digest -> representative history
         steps_of = {}      # digest -> {op: (result, next digest)}
         alts = {}          # digest -> number of alternative histories validated
@@ -488,7 +650,9 @@ def run(tier, seed, t0):
              "result must be bit-identical to the same call made first on a fresh object that is ALONE in a pristine world, stored sequence and "
              "phosphosites unchanged; merge validation: up to %d alternative histories per state are expanded too and must agree "
              "on every result and successor state. Phase 1b (independent of state merging): for every call i, a fresh world runs i and "
-             "then every call of the same object in turn (all ordered same-object pairs). Phase 2: %d inputs chosen to collide on coarse cache keys (equal charge counts at "
+             "then every call of the same object in turn (all ordered same-object pairs). Phase 3: after each of 7 groups of calls from "
+             "other API areas (show plots, save plots, moves and permutants, reading a sequence file, setters on other objects, a "
+             "Wang-Landau run, rejected calls) every read-only call must still answer as on a fresh object. Phase 2: %d inputs chosen to collide on coarse cache keys (equal charge counts at "
              "different lengths, equal composition in different spellings, permutations, equal strings): for every input a, a fresh "
              "world analyses a with 30 calls and then every other input (and a again on a new object) in turn; each result must "
              "equal the input's solo result in a pristine world (every ordered pair occurs; a failure is minimised to a pair where "
